@@ -65,6 +65,7 @@ def gen(rng: Any, prop: str, tier: str) -> dict[str, Any]:
     mine_in_txn: dict[str, list[tuple[str, int]]] = {sid: [] for sid in sids}
     all_tables = [t for sid in sids for t in tables[sid]]
     new_tables: list[str] = []
+    merges = rng.random() < 0.5  # MERGE (fakesnow's longest multi-call statement) as one of the writers
     for sid in sids:
         ops.append({"s": sid, "k": "connect", "database": DB, "schema": SC})
     for _ in range(rng.randint(10, 36)):
@@ -109,6 +110,15 @@ def gen(rng: Any, prop: str, tier: str) -> dict[str, Any]:
                     ops.append({"s": sid, "k": "exec", "cur": cur, "sql": what.upper(), "txn": what})
                 open_txn[sid] = False
                 continue
+        if kind == "insert" and merges and rng.random() < 0.2:
+            # the same effect through MERGE (fakesnow's longest multi-call statement), on the session's own table
+            t = rng.choice(tables[sid])
+            ids = [fresh()]
+            ops.append({"s": sid, "k": "exec", "cur": cur, "merge": True, "w": {"table": t, "ids": ids},
+                        "sql": f"MERGE INTO {t} USING (SELECT {ids[0]} AS id, '{sid}' AS who) src ON {t}.id = src.id WHEN NOT MATCHED THEN INSERT (id, who) VALUES (src.id, src.who)"})
+            if open_txn[sid]:
+                mine_in_txn[sid].append((t, ids[0]))
+            continue
         if kind == "insert":
             t = rng.choice(tables[sid])
             ids = [fresh() for _ in range(rng.choice([1, 1, 2, 3]))]
@@ -133,7 +143,7 @@ def gen(rng: Any, prop: str, tier: str) -> dict[str, Any]:
     engine_level = rng.random() < 0.35
     return {
         "profile": NAME,
-        "config": {"k": k, "tables": tables, "setup": setup},
+        "config": {"k": k, "tables": tables, "setup": setup, "hazards": {"merge_in_txn": merges}},
         "strategy": rng.choice(["random", "pct", "pct"]) if engine_level else "serial-list",
         "pct_depth": rng.choice([1, 2, 3]),
         "pct_horizon": 8 * len(ops),
@@ -216,7 +226,7 @@ def check_history(history: list[dict[str, Any]], probes: dict[str, int]) -> dict
                         probes["rollback"] = probes.get("rollback", 0) + 1
                     cur = None
             elif "w" in op:
-                if out.get("rows") != [[len(op["w"]["ids"])]]:
+                if not op.get("merge") and out.get("rows") != [[len(op["w"]["ids"])]]:
                     return v_("insert-count", "INSERT status row", brief(h))
                 tx = cur
                 if tx is None:
